@@ -5,6 +5,7 @@ FENCE_NOTE = ("Trusts: x86-64 Linux page protection and the fault error code (wr
               "and 20-40 line C models). Accesses inside mapped memory that is no arena slot are not observed.")
 
 ENGINES = [
+    {"name": "misc", "path": "harness/misc.c", "serves_properties": ["C01", "C02", "C03", "C04", "C05", "C06", "C08", "C12"], "kind_free_text": "time / error-string / environment / line-input / file exports under the fence with libc references"},
     {"name": "fmtw", "path": "harness/fmtw.c", "serves_properties": ["C09"], "kind_free_text": "wide printf_s + narrow/wide scanf_s drivers with %n sentinels"},
     {"name": "fmt", "path": "harness/fmt.c", "serves_properties": ["C11", "C09", "C01", "C02", "C03", "C04", "C05", "C08"], "kind_free_text": "narrow printf_s family driver: variadic dispatcher (vcall_gen.h), format grammar, libc differential"},
     {"name": "threads", "path": "harness/threads.c", "serves_properties": ["C12"], "kind_free_text": "thread stress + footprint monitor in common.h + TSan build"},
